@@ -476,8 +476,8 @@ def commContains (dc : List S) (v : Nat) : Bool := dc.any (fun d => decide (d.le
 def commDuplexesContains (ors ands : List (List S)) (v : Nat) : Bool :=
   ors.any (fun dc => commContains dc v) && ands.all (fun dc => commContains dc v)
 
-/-- default of the model driver: `false` = /repo as it is (F1 present); set to `true` once hooks/C13-fix.patch is
-committed (the op line `mode fixed|current` overrides it per case). -/
+/-- default of the model driver: `true` = /repo since 64f2f41 (collect-then-remove And/AndNot fallbacks); `false` = the code
+before that repair (F1). The op line `mode fixed|current` overrides it per case. -/
 def liveFixed : Bool := true
 
 /-- default wrapper protocol of the model driver: `true` = snapshot-then-lock (hooks/C13-fix2.patch); the op line
